@@ -47,6 +47,20 @@ CHECKS['C12'] = dict(
     note=NOTE_COMMON + "Codec-side errors (missing member, unknown enumeration value) are evaluated directly on the implementation; message tails are not compared.",
     technique="Lean 4 proof (mutual structural induction) + position x corruption-kind differential check",
     ref="DESIGN.md §4 C12")
+CHECKS['C17'] = dict(
+    text="Lean theorems key_injective (codec names from the source table are prefix-free, options prefix-free by hypothesis, length-prefixed file contents injective) and run_transparent: "
+         "for EVERY history of compile_files calls on a consistent store every call returns what the uncached compile returns; the exact key bytes in the diskcache store are compared with the model key; "
+         "histories with varied options, file edits and re-splits are compared behaviourally with uncached compiles; thorough tier injects SIGKILL and file damage (error-or-equal).",
+    note=NOTE_COMMON + "Partial: diskcache/sqlite assumed to be an atomic map (fault injection supports, does not prove, that); Python repr of the option tuple assumed prefix-free.",
+    technique="Lean 4 proof (invariant over call histories) + history differential check + fault injection",
+    ref="DESIGN.md §4 C17")
+CHECKS['C18'] = dict(
+    text="Lean theorem noninterference: for EVERY schedule of micro-steps of any number of calls, if no step writes the shared state each call returns its solo result and the shared state is unchanged; "
+         "the hypothesis is what is checked on the implementation: class-level write monitors on every object reachable from the Specification, structural fingerprints before/after op sequences, "
+         "sequential and 1-8 thread runs compared call by call with fresh-specification oracles, input immutability.",
+    note=NOTE_COMMON + "Partial: CPython GIL/bytecode atomicity not modelled; read-onlyness of the real objects is monitored, not proved.",
+    technique="Lean 4 proof (schedule induction) + write monitoring + threaded differential check",
+    ref="DESIGN.md §4 C18")
 NOT_APPLICABLE = []
 
 def main():
